@@ -16,8 +16,8 @@ RULE = ('three streams. bin (55%): two conforming files (1-3 dims, <= 12 cells, 
         'expressions over the variables compared with direct numpy/numpy.ma evaluation (Python oracle only). F: Coq model vs library '
         'cell by cell (exact); S: Coq spec and independent Python oracle. Non-trivial = a result cell differs from the left operand / a '
         'cell got masked / a variable was created.')
-TRUSTED = ['numpy elementwise arithmetic on the raw data (r) and the data buffer numpy.ma leaves under masked/domain cells (z) are inputs '
-           'to the model, computed by the harness with numpy itself; the model decides mask placement and which value is exposed',
+TRUSTED = ['numpy elementwise arithmetic on the raw data (r) is an input to the model, computed by the harness with numpy itself; '
+           'the model decides mask placement',
            'numpy.ma.masked_greater/less/equal/values/invalid/where semantics are modelled (isclose rtol 1e-5 atol 1e-8 for floats)',
            'eval(): not in the Coq model; oracle = exec of the same statements on numpy arrays']
 ASSUMPTIONS = ['operands conform (same shape per variable); +-1e308 operands only with + - * (numpy.ma\'s divide domain |a|*tiny >= |b| '
@@ -302,7 +302,7 @@ def _obs_term(obs, names, raise_kind=None):
 
 
 def _bin_cells(case):
-    """per variable of file 1: (bma, left cells, list of (m1, m2, b0, r, z)) — r, z via numpy"""
+    """per variable of file 1: (bma, left cells, list of (m1, m2, b0, r)) — r via numpy on the raw data"""
     import numpy as np
     dl = dict(case['dims'])
     by2 = {v['name']: v for v in case['vars2']}
@@ -316,10 +316,9 @@ def _bin_cells(case):
                 ra, rb = np.ma.getdata(a), np.ma.getdata(b)
                 r = np.asarray(_binop(np.array(ra), np.array(rb), case['op']))
                 bma = isinstance(a, np.ma.MaskedArray) or isinstance(b, np.ma.MaskedArray)
-                z = np.ma.getdata(_binop(a, b, case['op'])) if bma else r
                 ent['bma'] = bma
                 ent['pair'] = list(zip(np.ma.getmaskarray(a).ravel().tolist(), np.ma.getmaskarray(b).ravel().tolist(),
-                                       (rb == 0).ravel().tolist(), r.ravel().tolist(), np.asarray(z).ravel().tolist()))
+                                       (rb == 0).ravel().tolist(), r.ravel().tolist()))
             res.append(ent)
     return res
 
@@ -345,7 +344,7 @@ def coq_term(case, obs):
         vs = []
         for e in ents:
             pair = 'None' if e['pair'] is None else '(Some [%s])' % '; '.join(
-                '(BC %s %s %s %s %s)' % (C.cbool(a), C.cbool(b), C.cbool(c), _rv(r), _rv(z)) for a, b, c, r, z in e['pair'])
+                '(BC %s %s %s %s)' % (C.cbool(a), C.cbool(b), C.cbool(c), _rv(r)) for a, b, c, r in e['pair'])
             vs.append('(BV %d%%nat %s [%s] %s)' % (_vid(e['name']), C.cbool(e['bma']), '; '.join(_ocell(c) for c in e['left']), pair))
         return '(CBin %d%%nat %s [%s] %s)' % (CLS.get(case['op'], 0), C.natlist([_vid(c) for c in case['coords']]), '; '.join(vs), o)
     # mask
@@ -363,7 +362,7 @@ def coq_term(case, obs):
     else:
         da = case['dims_arg']
         w = '(Some (WA %s [%s] %s))' % (C.natlist(case['where']['shape']), '; '.join(C.cbool(b) for b in case['where']['bits']),
-                                        'None' if da is None else '(Some (%s, %s))' % (C.natlist([_vid(d) for d in da['dims']]), C.cbool(da['tuple'])))
+                                        'None' if da is None else '(Some %s)' % C.natlist([_vid(d) for d in da['dims']]))
     vs = []
     for v in case['vars']:
         cells = '; '.join('(MC %s %s)' % (_rv(_dec(x)), C.cbool(v['mask'] is not None and v['mask'][i])) for i, x in enumerate(v['data']))
@@ -408,10 +407,8 @@ def py_check(case, obs):
                     exp.append((e['name'], e['left']))
                     continue
                 cells = []
-                for m1, m2, b0, r, z in e['pair']:
+                for m1, m2, b0, r in e['pair']:
                     nf = not math.isfinite(float(r))
-                    if m1 or m2 or (e['bma'] and ((cls == 1 and (b0 or nf)) or (cls == 2 and nf))):
-                        region = 1
                     # masked-array semantics: numpy.ma also masks a zero divisor of / // % (matters for integers only)
                     cells.append(None if (m1 or m2 or nf or (e['bma'] and cls == 1 and b0)) else (_enc(r) if isinstance(r, float) else int(r)))
                 exp.append((e['name'], cells))
@@ -424,11 +421,6 @@ def py_check(case, obs):
             dl = dict(case['dims'])
             p = {k: _dec(v) for k, v in case['preds'].items()}
             w, da = case['where'], case['dims_arg']
-            if w is not None and da is not None and not da['tuple']:
-                region = 2
-            if 'values' in p and p['values'] != int(p['values']) if math.isfinite(p.get('values', 0.0)) else False:
-                if any(v['dtype'][0] == 'i' and not (v['name'] in case['coords'] and not case['with_coords']) for v in case['vars']):
-                    region = 3
             exp = []
             expect_index_error = False
             for v in case['vars']:
@@ -520,18 +512,17 @@ def shrink(case):
             yield dict(case, where=None, dims_arg=None)
 
 
-LEVEL_TEXT = ('Theorems (Props/C06.v, all closed under the global context) over an elementwise Gallina model of pncbo and mask(): '
-              '`f1 op f2` equals the specification (operand masks united, non-finite masked, coordinate and right-missing variables '
-              'copied from the left) for every operator, shape and variable list on the domain dom_var (C06_binop_partial, with the '
-              'corollaries C06_binop_plain_operands, C06_binop_unmasked_ma_operands, C06_coords_passthrough, C06_never_exposes_nonfinite, '
-              'C06_spec_cell_exact); the full statement is refuted for masked operand cells and for division by zero on masked-typed '
-              'variables (C06_binop_masked_operand_refuted, C06_binop_zero_division_refuted = known findings); mask(): exact masking '
-              'and untouched unmasked values for all predicate combinations on floating variables / integral values= '
-              '(C06_mask_exact_no_where_partial, C06_mask_exact_where_partial, C06_mask_keeps_unmasked_partial, C06_mask_skips_coords), '
-              'whole-call equality unless dims= is a list or an integer variable meets a non-integral values= (C06_mask_partial; '
-              'C06_mask_dims_list_refuted, C06_mask_int_values_refuted = known findings). eval() is compared with numpy by a Python '
-              'oracle only (no theorem). '
-              'Tie H: library vs model on every generated bin/mask case.')
-LEVEL_NOTE = ('Trusted: Coq kernel + vm_compute; the harness; numpy elementwise results and numpy.ma data-buffer fillers are model inputs '
-              '(the model decides mask placement); numpy.ma.masked_* semantics as modelled. eval(): oracle only.')
+LEVEL_TEXT = ('Theorems (Props/C06.v, all closed under the global context) over an elementwise Gallina model of the repaired pncbo and '
+              'mask(): `f1 op f2` equals the specification (operand masks united, non-finite results and numpy.ma zero divisors masked, '
+              'coordinate and right-missing variables copied from the left) for every operator, shape, variable list, masked or plain '
+              'operands (C06_binop_correct, full strength; C06_masked_operand_stays_masked, C06_coords_passthrough, '
+              'C06_missing_right_copied, C06_never_exposes_nonfinite, C06_spec_cell_exact); mask(): exact masking, untouched unmasked '
+              'values, monotone masks for all predicate combinations, integer and floating variables (C06_mask_exact_no_where, '
+              'C06_mask_exact_where, C06_mask_keeps_unmasked, C06_mask_monotone, C06_mask_skips_coords) and whole-call equality for every '
+              'input incl. dims= as a list (C06_mask_correct, full strength). No _partial/_refuted theorem is left: the four defects '
+              'found (masked operand unmasked, x/0 not masked on masked-typed variables, dims list ignored, integer values= unmasking) are '
+              'repaired (known_findings fixed:) and their inputs are corpus cases. eval() is compared with numpy by a Python oracle only '
+              '(no theorem). Tie H: library vs model on every generated bin/mask case.')
+LEVEL_NOTE = ('Trusted: Coq kernel + vm_compute; the harness; numpy elementwise results are model inputs (the model decides mask placement); '
+              'numpy.ma.masked_* semantics as modelled. eval(): oracle only.')
 TECHNIQUE = 'Coq proof (elementwise refinement on a boolean domain, list induction) + vm_compute refutation witnesses + differential correspondence'
